@@ -309,6 +309,28 @@ func runC26(c *Ctx) {
 		}
 		c.Violate(ra, name+"->.Filesystem", u.Sel.Pos(), "the raw (unvalidated) filesystem is taken out of the worktree wrapper")
 	}
+	// the public accessor hands out the same raw filesystem: no production code of the module calls it (it is for the application)
+	if acc := p.Func("git.(*Worktree).Filesystem"); acc != nil {
+		nAcc := 0
+		for _, fi := range p.Funcs() {
+			if fi.Decl.Body == nil || p.isTestFile(fi.Decl.Pos()) || !production(fi.Pkg) {
+				continue
+			}
+			finfo := fi.Pkg.TypesInfo
+			k := 0
+			walkCalls(fi.Decl.Body, true, func(call *ast.CallExpr) {
+				if Callee(finfo, call) != acc.Obj {
+					return
+				}
+				k++
+				nAcc++
+				c.Violate(ra, fi.Name()+"->Worktree.Filesystem()"+ifStr(k > 1, "#"+itoa(k)), call.Pos(), "the raw (unvalidated) filesystem is taken out of the worktree wrapper through its public accessor: what is done with it (Chroot for a submodule, create, remove …) skips the symlink and .git checks")
+			})
+		}
+		c.Check(nAcc == 0, ra, "git.(*Worktree).Filesystem:callers", acc.Decl.Pos(), orStr(ifStr(nAcc > 0, itoa(nAcc)+" production call(s) of the accessor"), "no production code of the module calls the raw-filesystem accessor"))
+	} else {
+		c.Unresolved(ra, "git.(*Worktree).Filesystem", 0, "accessor not found")
+	}
 	// in reusableRootFS every returned filesystem is the wrapper itself or a fresh wrapper
 	if rr := p.Func("git.(*Worktree).reusableRootFS"); rr != nil {
 		c.Analysed(rr)
